@@ -1,8 +1,25 @@
 import PhyVerif.Driver.Rat
 import PhyVerif.Model.C09
+import PhyVerif.Model.C09b
 import PhyVerif.Spec.C09
+import PhyVerif.Spec.C09b
 namespace PhyVerif.Driver
 open Lean PhyVerif PhyVerif.C09
+
+def getRat (j : Json) (k : String) : R Rat := fld j k >>= asRat
+
+/-- harness aid (NOT part of the model): the channels whose exact peak-to-peak amplitude is within a relative
+`2⁻⁴⁰` of the largest one.  Cluster waveforms of curated datasets are floating-point weighted means; there the
+rounding of `max - min` may break an exact near-tie either way, so any of these channels is accepted as the
+reported peak channel (and the duration is then checked on the reported channel). -/
+def nearPeaks (W : Mat) : List Nat :=
+  let a := chAmps W
+  let m := listMax a
+  (a.zipIdx.filter fun p => decide (m ≤ p.1 * (1 + 1 / 1099511627776))).map (·.2)
+
+/-- harness aid: `durTable` in milliseconds (entry `[t][j]`: duration of waveform `t` measured on channel `j`) -/
+def durTableMs (wfs : List Mat) (rate : Rat) : List (List Rat) :=
+  (durTable wfs).map fun row => row.map fun (d : Int) => (d : Rat) / rate * 1000
 
 partial def runC09 (op : String) (j : Json) : R Json := do
   match op with
@@ -15,20 +32,35 @@ partial def runC09 (op : String) (j : Json) : R Json := do
   | "amps" =>
     let wfs ← getRat3 j "wfs"; let wmi ← getRatMat j "wmi"
     let amps ← getRats j "amplitudes"; let spikes ← getNats j "spikes"
+    let f ← getRat j "factor"
     let d : Data := ⟨wfs, wmi, amps, spikes⟩
+    -- the three RETURN VALUES of `get_amplitudes_true(sample2unit=f)`: the unit factor is applied by the model
+    let (sa, resc, av) := amplitudesTrue d f
     pure (Json.mkObj [
       ("amps_au", jRats (ampsAu d)),
-      ("spike_amps", jRats (spikeAmps d)),
-      ("amps_v", jList (jOpt jRat) (ampsV d)),
-      ("amps_v_spec", jList (jOpt jRat) ((List.range wfs.length).map (meanOver spikes (spikeAmps d)))),
-      ("rescaled", jList (jOpt jRatMat) (rescaled d)),
-      ("rescaled_peak", jList (jOpt jRat) ((rescaled d).map fun o => o.map fun W => listMax (chAmps W)))])
+      ("spike_amps", jRats sa),
+      ("amps_v", jList (jOpt jRat) av),
+      ("amps_v_spec", jList (jOpt jRat) ((List.range wfs.length).map (meanOver spikes sa))),
+      ("rescaled", jList (jOpt jRatMat) resc),
+      ("rescaled_peak", jList (jOpt jRat) (resc.map fun o => o.map fun W => listMax (chAmps W)))])
+  | "peak_amps" =>
+    -- peak amplitude (largest channel peak-to-peak, `peakAmp_spec`) of waveforms given by the caller — the harness
+    -- sends the REAL rescaled waveforms
+    let wfs ← getRat3 j "wfs"
+    pure (Json.mkObj [("peaks", jRats (wfs.map fun W => listMax (chAmps W)))])
   | "mean_amps" =>
     let ids ← getNats j "ids"; let amps ← getRats j "amplitudes"
     pure (Json.mkObj [("model", jList (fun (p : Nat × Rat) => Json.arr #[jNat p.1, jRat p.2]) (meanAmps ids amps))])
   | "channels" =>
     let wfs ← getRat3 j "wfs"
-    pure (Json.mkObj [("peak", jNats (peakChannels wfs)), ("durations", jInts (durations wfs))])
+    let rate ← getRat j "rate"
+    pure (Json.mkObj [("peak", jNats (peakChannels wfs)), ("durations", jInts (durations wfs)),
+      -- `_waveform_durations` in milliseconds (flat-index route) and, as a self-check of the theorem
+      -- `duration_ms_spec`, the same from the per-waveform formula
+      ("durations_ms", jRats (waveformDurations wfs rate)),
+      ("durations_ms_spec", jRats ((durations wfs).map fun (d : Int) => (d : Rat) * 1000 / rate)),
+      ("near_peaks", jList jNats (wfs.map nearPeaks)),
+      ("dur_table_ms", jRatMat (durTableMs wfs rate))])
   | "depths" =>
     let feat0 ← getRatMat j "feat0"; let cols ← getNatss j "cols"; let ys ← getRats j "ys"
     let st ← getNats j "spike_templates"
